@@ -346,3 +346,42 @@ func BlockedOnly(stack string) bool {
 	}
 	return true
 }
+
+// SubTraceLines is TraceLines for subscription scenarios: the end-of-stream marker
+// carries the number of events the plan prescribes for the root field (default 2).
+func SubTraceLines(s *Scenario) [][]byte {
+	if s.Result == nil || s.Op == nil || len(s.Op.Sels) == 0 {
+		return TraceLines(s)
+	}
+	// responses are interleaved with the resolver / error events at the point the
+	// response function returned them ("Resp" markers in the event log)
+	full := TraceLines(s)
+	nresp := len(s.Result.Resps)
+	head, resp := full[:len(full)-nresp], full[len(full)-nresp:]
+	var out [][]byte
+	out = append(out, head[0]) // Scenario
+	hi := 1
+	ri := 0
+	for _, ev := range s.Result.Events {
+		switch ev.E {
+		case "Start", "End", "Err", "Recover":
+			if hi < len(head) {
+				out = append(out, head[hi])
+				hi++
+			}
+		case "Resp":
+			if ri < len(resp) {
+				out = append(out, resp[ri])
+				ri++
+			}
+		}
+	}
+	out = append(out, head[hi:]...)
+	out = append(out, resp[ri:]...)
+	n := 2
+	if o, ok := s.Plan[s.Op.Sels[0].Alias]; ok && o.K == "stream" {
+		n = o.N
+	}
+	b, _ := json.Marshal(map[string]any{"e": "Done", "n": n})
+	return append(out, b)
+}
